@@ -357,3 +357,6 @@ PROPS["C19"]["theorems"] = PROPS["C19"]["theorems"] + ["Toxi.Client.C19_populate
 PROPS["C03"]["theorems"] = PROPS["C03"]["theorems"] + ["Toxi.Proxy.C03_all_closed", "Toxi.Proxy.ever_step", "Toxi.Ties.tie_registry"]
 # C13 on real sockets: reset_peer ends the connection with a TCP reset at both peers (E6)
 PROPS["C13"]["engines"] = PROPS["C13"]["engines"] + [{"engine": "e6", "args": ["-props", "C13"], "tag": "C13sock"}]
+# every toxic of every reachable registry has a stream ParseDirection accepts (StreamOK.lean)
+PROPS["C05"]["lean_modules"] = PROPS["C05"]["lean_modules"] + ["Toxi.Proofs.Lemmas.StreamOK"]
+PROPS["C05"]["theorems"] = PROPS["C05"]["theorems"] + ["Toxi.Api." + t for t in ["C05_reachable_streams", "sok_step", "parseDirection_domain"]]
